@@ -345,6 +345,10 @@ def reply_body(pred: dict, rp: dict) -> dict:
         elif k == "streamSse":
             data = b"data: {\"i\": 1}\n\ndata: {\"i\": 2}\n\n"
             return {"status": status, "headers": headers, "chunks_b64": [b64(data[:9]), b64(data[9:])], "raw": data.decode()}
+        elif k == "streamNdjson":
+            # newline-delimited JSON (the SSE parser yields nothing for it; iter_ndjson fails on an SSE body): other items than the SSE reply
+            data = b"{\"j\": 1}\n\n{\"j\": 2}\n"
+            return {"status": status, "headers": headers, "chunks_b64": [b64(data[:5]), b64(data[5:])], "raw": data.decode()}
     return {"status": status, "headers": headers, "body_b64": b64(raw), "raw": raw.decode("latin-1")}
 
 
@@ -454,6 +458,8 @@ def observed_outcome(oc: dict, reply: dict) -> dict:
         items = oc.get("items", [])
         if items and all(isinstance(i, dict) and "__bytes__" in i for i in items):
             return {"kind": "returned", "ret": "streamBytes"}
+        if items == [{"j": 1}, {"j": 2}]:
+            return {"kind": "returned", "ret": "streamNdjson"}
         return {"kind": "returned", "ret": "streamSse" if items == [{"i": 1}, {"i": 2}] else f"?stream{json.dumps(items)[:60]}"}
     if k == "raised":
         if oc.get("is_http_error"):
